@@ -23,6 +23,12 @@ type Republisher struct {
 	update           chan cid.Cid
 	immediatePublish chan chan struct{}
 
+	// updateLock makes replacing the value in the update channel atomic with
+	// respect to the publisher grabbing the latest value, so that the channel
+	// never looks empty while an Update is between removing the old value and
+	// storing the new one.
+	updateLock sync.Mutex
+
 	cancel    func()
 	closeOnce sync.Once
 	stopped   chan struct{}
@@ -84,17 +90,16 @@ func (rp *Republisher) Close() error {
 // Update the current value. The value will be published after a delay but each
 // consecutive call to Update may extend this delay up to TimeoutLong.
 func (rp *Republisher) Update(c cid.Cid) {
+	rp.updateLock.Lock()
+	defer rp.updateLock.Unlock()
+
+	// Replace any value that has not been picked up yet. Only Update sends on
+	// the channel, and only while holding the lock, so the send cannot block.
 	select {
 	case <-rp.update:
-		select {
-		case rp.update <- c:
-		default:
-			// Don't try again. If we hit this case, there's a
-			// concurrent publish and we can safely let that
-			// concurrent publish win.
-		}
-	case rp.update <- c:
+	default:
 	}
+	rp.update <- c
 }
 
 // Run contains the core logic of the `Republisher`. It calls the user-defined
@@ -160,11 +165,15 @@ func (rp *Republisher) run(ctx context.Context, timeoutShort, timeoutLong time.D
 			// Wait for a newer value or the quick timer.
 			continue
 		case waiter = <-immediatePublish:
-			// Make sure to grab the *latest* value to publish.
+			// Make sure to grab the *latest* value to publish. Hold the
+			// update lock so that a value being replaced by a concurrent
+			// Update is not missed.
+			rp.updateLock.Lock()
 			select {
 			case toPublish = <-rp.update:
 			default:
 			}
+			rp.updateLock.Unlock()
 
 			// Avoid publishing duplicate values
 			if lastPublished.Equals(toPublish) {
